@@ -38,8 +38,8 @@ Hypothesis H_sigs : forall m m' s w, MR m m' -> sig_width m s = Some w -> sig_wi
 Hypothesis H_inst : forall m m' i e x, MR m m' -> find_inst (m_insts m) i = Some x -> elem_ok x e = true ->
   exists x', find_inst (m_insts m') (fst (rho m (i, e))) = Some x' /\ elem_ok x' (snd (rho m (i, e))) = true /\
              tgt_rel mu (i_of x) (i_of x').
-Hypothesis H_single : forall m i x, find_inst (m_insts m) i = Some x -> i_n x <= 0 -> snd (rho m (i, 0)) = 0.
-Hypothesis H_inj : forall m i e x j f y, find_inst (m_insts m) i = Some x -> elem_ok x e = true ->
+Hypothesis H_single : forall m m' i x, MR m m' -> find_inst (m_insts m) i = Some x -> i_n x <= 0 -> snd (rho m (i, 0)) = 0.
+Hypothesis H_inj : forall m m' i e x j f y, MR m m' -> find_inst (m_insts m) i = Some x -> elem_ok x e = true ->
   find_inst (m_insts m) j = Some y -> elem_ok y f = true -> rho m (i, e) = rho m (j, f) -> i = j /\ e = f.
 
 Definition map_lt (m : module) (t : ltgt) : ltgt :=
@@ -173,29 +173,32 @@ Proof.
     rewrite (step_port d' (tr_path p) _ _ port k m' x' (vmod_at_mod_at _ _ _ Hm') Hf').
     rewrite (H_loc _ _ _ _ _ _ _ _ _ _ R Hf He Hf' Hw Hk Et Hval). cbn [bind]. f_equal.
     destruct t as [s j|i1 p1 j|]; cbn [map_lt ltgt_node phi]; [reflexivity| |rewrite Hm; reflexivity].
-    rewrite Hm. destruct Hval as [x1 [w1 [Hf1 [Hn1 _]]]]. rewrite (H_single _ _ _ Hf1 Hn1). reflexivity.
+    rewrite Hm. destruct Hval as [x1 [w1 [Hf1 [Hn1 _]]]]. rewrite (H_single _ _ _ _ R Hf1 Hn1). reflexivity.
 Qed.
 
 (* ---- phi is injective on valid nodes ---- *)
-Lemma tr_down_inj : forall p q m mp mq, vdown d m p = Ok mp -> vdown d m q = Ok mq -> tr_down m p = tr_down m q -> p = q.
+Lemma tr_down_inj : forall p q m m' mp mq, MR m m' -> vdown d m p = Ok mp -> vdown d m q = Ok mq -> tr_down m p = tr_down m q -> p = q.
 Proof.
-  induction p as [|[i e] p IH]; intros q m mp mq Hp Hq E; destruct q as [|[j f] q]; cbn [tr_down] in E; try discriminate; [reflexivity|].
+  induction p as [|[i e] p IH]; intros q m m' mp mq R Hp Hq E; destruct q as [|[j f] q]; cbn [tr_down] in E; try discriminate; [reflexivity|].
   cbn [vdown] in Hp, Hq.
   destruct (find_inst (m_insts m) i) as [x|] eqn:Ef; cbn [ofopt bind] in Hp; [|discriminate].
   destruct (elem_ok x e) eqn:Ee; [|discriminate].
   destruct (find_inst (m_insts m) j) as [y|] eqn:Eg; cbn [ofopt bind] in Hq; [|discriminate].
   destruct (elem_ok y f) eqn:Ey; [|discriminate].
-  inversion E as [[Eh Et]]. destruct (H_inj _ _ _ _ _ _ _ Ef Ee Eg Ey Eh) as [<- <-].
+  inversion E as [[Eh Et]]. destruct (H_inj _ _ _ _ _ _ _ _ R Ef Ee Eg Ey Eh) as [<- <-].
   rewrite Ef in Eg. inversion Eg; subst y.
-  destruct (i_of x) as [k|]; [|discriminate]. destruct (nth_mod d k) as [mk|]; cbn [bind] in *; [|discriminate].
+  destruct (H_inst _ _ _ _ _ R Ef Ee) as [x' [_ [_ Ht]]].
+  destruct (i_of x) as [k|]; [|discriminate]. destruct (nth_mod d k) as [mk|] eqn:Ek; cbn [bind] in *; [|discriminate].
+  destruct (i_of x') as [k'|]; cbn [tgt_rel] in Ht; [|destruct Ht]. destruct (H_desc _ _ _ Ht Ek) as [mk' [_ Rk]].
   f_equal. eapply IH; eassumption.
 Qed.
 
 Lemma tr_path_inj p q mp mq : vmod_at d p = Ok mp -> vmod_at d q = Ok mq -> tr_path p = tr_path q -> p = q.
 Proof.
-  unfold vmod_at, tr_path. destruct (nth_mod d (d_top d)) as [top|]; cbn [bind]; [|discriminate].
+  unfold vmod_at, tr_path. destruct (nth_mod d (d_top d)) as [top|] eqn:Et; cbn [bind]; [|discriminate].
+  destruct (H_desc _ _ _ H_top Et) as [top' [_ Rt]].
   intros Hp Hq E. apply (f_equal (@rev pelem)) in E. rewrite !rev_involutive in E.
-  pose proof (tr_down_inj _ _ _ _ _ Hp Hq E) as Er. apply (f_equal (@rev pelem)) in Er. rewrite !rev_involutive in Er. exact Er.
+  pose proof (tr_down_inj _ _ _ _ _ _ Rt Hp Hq E) as Er. apply (f_equal (@rev pelem)) in Er. rewrite !rev_involutive in Er. exact Er.
 Qed.
 
 Theorem phi_inj x y : valid d x -> valid d y -> phi x = phi y -> x = y.
@@ -208,7 +211,8 @@ Proof.
   - intros [m [x [w [Hm [Hf [He _]]]]]] [m2 [x2 [w2 [Hm2 [Hf2 [He2 _]]]]]]. cbn [phi]. rewrite Hm, Hm2.
     intros E. inversion E as [[Ep Ei Ee Eport Ek]].
     pose proof (tr_path_inj _ _ _ _ Hm Hm2 Ep) as ->. rewrite Hm in Hm2. inversion Hm2; subst m2.
-    destruct (H_inj _ _ _ _ _ _ _ Hf He Hf2 He2) as [-> ->]; [|reflexivity].
+    destruct (vmod_at_tr _ _ Hm) as [m' [_ R]].
+    destruct (H_inj _ _ _ _ _ _ _ _ R Hf He Hf2 He2) as [-> ->]; [|reflexivity].
     destruct (rho m (i, e)), (rho m (j, f)). cbn [fst snd] in *. congruence.
 Qed.
 
